@@ -9,7 +9,7 @@ type corpusEntry struct {
 }
 
 var corpus = []corpusEntry{
-	// KNOWN FINDING C17-empty-file-not-document: nothing to print -> empty text -> "not document"
+	// fixed (parser, 6a3edb3): nothing to print -> empty text, which the parser used to reject ("not document")
 	{"empty-file", "main.thrift", map[string]string{"main.thrift": "// only a comment\n"}},
 
 	// fixed (C17-1): defaults and annotations of arguments and throws; throws separator
@@ -41,6 +41,15 @@ struct S {
   2: map<string (a = "&"), list<string (b = "&amp;")> (c = "d")> m
 }
 `}},
+	// an ampersand in front of a legacy entity name without semicolon must stay as it is (no HTML
+	// pass is left in DumpIDL; html.UnescapeString would give (R)ion, (C)=, section sign, <=)
+	{"ampersand-legacy-entities", "main.thrift", map[string]string{"main.thrift": `
+const string q = "?a=1&region=eu"
+const list<string> l = ["&copy=1", "&section=3", "size&lt=100", "&amp", "&amp;", "&quot", "&gt5", "&notify", "&#38", "&#x26;", "&deg;"]
+struct S {
+  1: string (url = "?a=1&region=eu&copy=1") a = "x&lt=1" (k = "&section=3", k = "size&lt=100")
+}
+`}},
 	{"include-path-with-quote", "main.thrift", map[string]string{
 		"main.thrift": "include \"a\\\"b.thrift\"\ninclude 'sub/c.thrift'\ncpp_include \"<x&y>\"\ncpp_include 'q\"q'\nstruct S { 1: c.T t }\n",
 		"a\"b.thrift":  "struct A {}\n",
@@ -61,6 +70,20 @@ const double i = 9223372036854775807.0
 const double j = 9007199254740993.0
 const list<double> k = [1.5, 2, 3.0e10]
 struct S { 1: double x = 1e21, 2: double y = 7 }
+`}},
+
+	// doubles that need 17 significant digits, at small and huge magnitudes
+	{"doubles-17-digits", "main.thrift", map[string]string{"main.thrift": `
+const double a = 1.1920928955078125e-07
+const double b = 1.1754943508222875e-38
+const double c = 1.1102230246251565e-16
+const double d = 2.2250738585072014e-308
+const double e = 1.7976931348623157e308
+const double f = 5e-324
+const double g = 0.30000000000000004
+const double h = -8.98846567431158e307
+const list<double> l = [1.0000000000000002, 1.4012984643248171e-45, 3.4028234663852886e38, 6.103515625e-05]
+struct S { 1: double x = 2.2204460492503131e-16, 2: double y = -1.1754943508222875e-38 }
 `}},
 
 	// not constrained by the property: cpp_type is not printed
